@@ -30,7 +30,7 @@ type c07Case struct {
 
 var c07Methods = []string{"POST", "PUT", "DELETE", "PATCH", "PROPPATCH", "MKCOL", "COPY", "MOVE", "LOCK", "UNLOCK", "ACL", "FOO", "PURGE", "post", "get", "Head", "options", "Report", "search", "Trace", "gET"}
 var c07Statuses = []int{200, 201, 204, 301, 302, 303, 307, 400, 404, 500}
-var c07Locs = []string{"", "item", "../o2", "?page=2", "/abs", "./r1", "http://A.EXAMPLE:80/abs", "//a.example/abs", "https://a.example/abs", "http://b.example/abs", "http://a.example:8080/abs", "http://[::1/bad", "/abs#frag", "/%61bs"}
+var c07Locs = []string{"", "item", "../o2", "?page=2", "/abs", "./r1", "http://A.EXAMPLE:80/abs", "//a.example/abs", "https://a.example/abs", "http://b.example/abs", "http://a.example:8080/abs", "http://[::1/bad", "/abs#frag", "/%61bs", "/x/%2e%2e/abs"}
 var c07Targets = [][2]string{
 	{"http://a.example/coll/r1", "http://a.example/coll/r1"},
 	{"http://a.example/coll/r1", "http://A.EXAMPLE:80/coll/r1"},
@@ -38,6 +38,9 @@ var c07Targets = [][2]string{
 	{"http://a.example/coll/r1", "http://a.example/coll/%721#f"},
 	{"http://a.example/coll/r1?q=1", "http://a.example/coll/r1?q=1"},
 	{"http://a.example/coll/", "http://a.example/coll/"},
+	{"http://a.example/coll/r1", "http://a.example/coll/x/%2e%2E/r1"},
+	{"http://a.example/coll/r1", "http://a.example/%2e/coll/.%2e/coll/r1"},
+	{"http://[fe80::1%25eth0]/coll/r1", "HTTP://[FE80::1%25eth0]:80/coll/./r%31#frag"},
 }
 
 func genC07(r *rand.Rand) c07Case {
